@@ -340,8 +340,12 @@ class Gen:
             if b is not None and not any(b is x for x in blocks):
                 blocks.append(b)
         D = 1
+        members = 0
         for b in blocks:
             D *= b.D
+            members += len(b.members)
+        if members > 5:
+            return 10**9  # XLA compile time of the library's einsums explodes with tensor rank (> 60 s at rank 14)
         return D
 
     def angle(self):
